@@ -10,6 +10,7 @@
   at any handle boundary, uncaches, in any interleaving.
 -/
 import Upnp.Lemmas.C18History
+import Upnp.Lemmas.C18Etree
 namespace Upnp.C18
 open Upnp St
 
@@ -216,5 +217,39 @@ example :
 theorem witness_F18a_ok :
     judge (run [.lookup 0, .lookup 0, .step, .step, .cancel 0, .step, .step, .complete 1 (some 7), .step,
                 .lookup 0, .step]) = true := by decide
+
+/-! ### the XML-tree → dictionary conversion (`utils.etree_to_dict`, `_description_xml_to_dict`) -/
+
+/-- `etree_total` + characterisation: on EVERY element tree (any depth, mixed content, attributes,
+    repeated sibling tags, namespaces, empty elements) the statement-by-statement transcription of
+    `etree_to_dict` — with `dict_meta` possibly `None` and both `assert dict_meta is not None` —
+    never hits an assert and returns exactly `etreeSpec t`: a leaf without attributes is its stripped text
+    (or `None` when `.text` is falsy); every other element is a dict of its children grouped by local
+    name in first-occurrence order (single ⇒ the value, repeated ⇒ a list), then `@attr` entries, then
+    `#text` if the stripped text is non-empty. -/
+theorem etree_characterised (t : Elem) : etreePy t = some (etreeSpec t) := etreePy_eq t
+
+theorem etree_total (t : Elem) : (etreePy t).isSome = true := by rw [etreePy_eq]; rfl
+
+/-- hence the conversion of a fetched description never raises: a lookup's outcome is a dictionary
+    (value) or absence, and a failed conversion can never escape a lookup as an AssertionError -/
+theorem description_never_asserts (t : Elem) : (descriptionOf t).isSome = true := by
+  unfold descriptionOf
+  rw [etreePy_eq]
+  simp only []
+  split
+  · split <;> rfl
+  · rfl
+
+/-- non-vacuity: the tree on which a stale `dict_meta` asserts — an attribute-less `<device>` with
+    non-whitespace text BEFORE its children, a repeated sibling tag, an attribute, an empty element -/
+example :
+    let icon1 := Elem.mk "{urn:x}icon".toList [("a".toList, "1".toList)] (some "t".toList) []
+    let icon2 := Elem.mk "{urn:x}icon".toList [] none []
+    let dev := Elem.mk "{urn:x}device".toList [] (some " mixed ".toList)
+                 [.mk "{urn:x}UDN".toList [] (some "uuid:x".toList) [], icon1, icon2]
+    ∃ d l, etreePy dev = some ("device".toList, .dict d) ∧ d.map (·.1) = ["UDN".toList, "icon".toList, "#text".toList]
+      ∧ PyDict.get? d "icon".toList = some (.list l) ∧ l.length = 2 := by
+  refine ⟨_, _, rfl, by decide, rfl, rfl⟩
 
 end Upnp.C18
